@@ -8,6 +8,35 @@ REACH = {"quick": ["ExecFreeReach_ReachDone.cfg", "ExecFreeReach_ReachDepsCkpt.c
                       "ExecFreeReach_ReachFullRam.cfg", "ExecFreeReach_ReachDepsCkpt.cfg"]}
 
 
+def apalache_inductive(ctx):
+    """Unbounded-n argument (thorough tier): ExecInd.IndInv holds initially and is preserved by every
+    step, for a symbolic number of steps N (Apalache, SMT).  Optional: if Apalache cannot be run the
+    result says so; an Apalache counterexample is a defect of the specification (exit 2)."""
+    import os
+    import shutil
+    import subprocess
+    from .common import VERIF
+    exe = shutil.which("apalache-mc")
+    if not exe:
+        return {"apalache": "not available"}
+    res = {}
+    for name, args in (("base", ["--init=Init", "--length=0"]), ("step", ["--init=IndInit", "--length=1"])):
+        od = os.path.join(ctx.dir, "apa-" + name)
+        try:
+            p = subprocess.run([exe, "check", "--cinit=ConstInit", "--inv=IndInv", f"--out-dir={od}", *args,
+                                os.path.join(VERIF, "spec", "ExecInd.tla")], capture_output=True, text=True,
+                               timeout=600, cwd=ctx.dir)
+        except subprocess.TimeoutExpired:
+            return {"apalache": "timeout"}
+        if "The outcome is: NoError" in p.stdout:
+            res[name] = "NoError"
+        elif "Checker has found an error" in p.stdout:
+            raise fw.Machinery(f"Apalache: ExecInd.IndInv is not inductive ({name})")
+        else:
+            return {"apalache": "could not run: " + p.stdout[-200:]}
+    return {"apalache": "IndInv inductive for symbolic N in 1..10^6", **res}
+
+
 def run(ctx):
     out = []
     for cfg in HOLD[ctx.tier]:
@@ -23,6 +52,8 @@ def run(ctx):
         if tlc.invariant_violated(r) is None:
             raise fw.Machinery(f"vacuity: {cfg} expected a reachability witness, TLC found none")
         out.append({"cfg": cfg, "reachable": True})
+    if ctx.tier != "quick":
+        out.append(apalache_inductive(ctx))
     return out
 
 
